@@ -118,6 +118,7 @@ def run(ctx):
               "wavespectra.timeseries.surface_timeseries"):
         targets.append((p.get_function(q), None))
     operand_rule(ctx, "R15.1", p, targets)
+    ctx.functions_analysed.update({m.qualname: 1 for m, _ in targets})
     must_fire(ctx, "R15.1", POSITIVE,
               lambda sub, mp: operand_rule(sub, "R15.1", mp, [(f, f.cls) for f in mp.all_functions if f.cls is not None]),
               "write through an alias / a .values view of self")
